@@ -60,10 +60,10 @@ def oks {α : Type} : List (Outcome α) → List α
 
 /-! ### `_contains_instance_attrs` -/
 
-/-- class test on `head(1)` only, then `hasattr` on every element -/
+/-- class test on `head(1)` as an early exit, then class test and `hasattr` on every element -/
 def containsInstanceAttrs (isCls : Cell → Bool) (hasAttrs : Cell → Bool) (c : Column) : Bool :=
   if !((c.cells.take 1).all isCls) then false
-  else c.cells.all hasAttrs
+  else c.cells.all (fun x => isCls x && hasAttrs x)
 
 /-! ### contains_op -/
 
@@ -271,8 +271,8 @@ def datetimeIsDate : Column → R Bool :=
       | .ts _ ns _ => ns == 0
       | _ => false)))
 
-/-- `string_is_geometry`: `all(wkt.loads(value) for value in sequence)` -/
-def stringIsGeometry (c : Column) : R Bool :=
+/-- `string_is_geometry` (under `series_handle_nulls`): `all(wkt.loads(value) for value in sequence)` -/
+def stringIsGeometry : Column → R Bool := handleNulls fun c =>
   let caught := fun cls => isA cls "WKTReadingError" || isA cls "ShapelyError" || isA cls "GEOSException" ||
     isA cls "AttributeError" || isA cls "UnicodeEncodeError" || isA cls "TypeError" || isA cls "UnicodeDecodeError"
   let rec go : List Cell → R Bool
@@ -283,16 +283,17 @@ def stringIsGeometry (c : Column) : R Bool :=
       | .ok (t, _) => if t then go xs else .ok false
   go c.cells
 
-/-- `coercion_test(lambda s: s.apply(ip_address))` -/
-def stringIsIp (c : Column) : R Bool :=
+/-- `string_is_ip_address` (under `series_handle_nulls`): `coercion_test(lambda s: s.apply(ip_address))` -/
+def stringIsIp : Column → R Bool := handleNulls fun c =>
   let vals := c.cells.map (fun x => match x.str with | some f => f.ip | none => Outcome.raises "ValueError")
   match firstRaise vals with
   | some cls =>
     if isA cls "ValueError" || isA cls "TypeError" || isA cls "AttributeError" then .ok false else .error (escape cls)
   | _ => .ok true
 
-/-- `string_is_path`: `string_to_path(series.copy())` then all absolute; only TypeError is caught -/
-def stringIsPath (c : Column) : R Bool :=
+/-- `string_is_path` (under `series_handle_nulls`): `string_to_path(series.copy())` then all absolute;
+only TypeError is caught -/
+def stringIsPath : Column → R Bool := handleNulls fun c =>
   let win := c.cells.map (fun x => match x.str with | some f => f.winAbs | none => Outcome.raises "TypeError")
   match firstRaise win with
   | some cls => if isA cls "TypeError" then .ok false else .error (escape cls)
@@ -315,20 +316,19 @@ def stringIsUrl : Column → R Bool :=
 
 /-- `series.all()` on the *input* strings, as `coercion_true_test` does -/
 def seriesAll (c : Column) : R Bool :=
-  -- "Cannot perform reduction 'all' with string dtype" (NA-variant string dtypes, python or pyarrow storage)
-  if c.dtype == .fam .string || c.dtype == .fam .stringArrow then .error (escape "TypeError")
-  else .ok (c.cells.all (fun x => match x.truth with | .ok b => b | .raises _ => true))
+  -- `series.astype(object).all()`
+  .ok (c.cells.all (fun x => match x.truth with | .ok b => b | .raises _ => true))
 
-/-- `uuid_is_string`: `coercion_true_test(apply(uuid.UUID))` -/
-def stringIsUuid (c : Column) : R Bool :=
+/-- `uuid_is_string` (under `series_handle_nulls`): `coercion_true_test(apply(uuid.UUID))` -/
+def stringIsUuid : Column → R Bool := handleNulls fun c =>
   let vs := c.cells.map (fun x => match x.str with | some f => f.uuid | none => Outcome.raises "AttributeError")
   match firstRaise vs with
   | some cls =>
     if isA cls "ValueError" || isA cls "TypeError" || isA cls "AttributeError" then .ok false else .error (escape cls)
   | _ => seriesAll c
 
-/-- `string_is_email`: `coercion_true_test(apply(_to_email) …)` -/
-def stringIsEmail (c : Column) : R Bool :=
+/-- `string_is_email` (under `series_handle_nulls`): `coercion_true_test(apply(_to_email) …)` -/
+def stringIsEmail : Column → R Bool := handleNulls fun c =>
   let vs := c.cells.map (fun x => match x.str with | some f => f.email | none => Outcome.raises "TypeError")
   match firstRaise vs with
   | some cls =>
@@ -442,35 +442,37 @@ def urlCell (netloc scheme : Bool) (repr : String) : Cell :=
 def uuidCell (repr : String) : Cell := { Cell.ofObj "UUID" repr with isUUID := true, hasUuidAttrs := true }
 def emailCell (repr : String) : Cell := { Cell.ofObj "FQDA" repr with isFQDA := true, hasEmailAttrs := true }
 
-/-- `string_to_geometry` (as repaired: keeps index and name) -/
+/-- `string_to_geometry` (as repaired: keeps index, name and missing values) -/
 def stringToGeometry (c : Column) : R Column :=
   applyStr c (fun f => match f.wkt with | .ok (_, r) => .ok (geomCell r) | .raises cls => .raises cls)
-    (fun _ => .raises "TypeError")
+    (fun x => if x.null then .ok x else .raises "TypeError")
 def stringToIp (c : Column) : R Column :=
   applyStr c (fun f => match f.ip with | .ok (cls, r) => .ok (ipCell cls r) | .raises cls => .raises cls)
-    (fun _ => .raises "ValueError")
-/-- `string_to_path`: Windows flavour if every element is absolute as a Windows path, else POSIX -/
+    (fun x => if x.null then .ok x else .raises "ValueError")
+/-- `string_to_path`: Windows flavour if every *value* is absolute as a Windows path, else POSIX; missing values
+are kept -/
 def stringToPath (c : Column) : R Column :=
-  let win := c.cells.map (fun x => match x.str with | some f => f.winAbs | none => Outcome.raises "TypeError")
+  let vals := c.dropna.cells
+  let win := vals.map (fun x => match x.str with | some f => f.winAbs | none => Outcome.raises "TypeError")
   match firstRaise win with
   | some cls => .error (escape cls)
   | _ =>
     if win.all (fun v => match v with | .ok (b, _) => b | _ => false) then
       applyStr c (fun f => match f.winAbs with | .ok (b, r) => .ok (purePathCell "PureWindowsPath" b r) | .raises cls => .raises cls)
-        (fun _ => .raises "TypeError")
+        (fun x => if x.null then .ok x else .raises "TypeError")
     else
       applyStr c (fun f => match f.posixAbs with | .ok (b, r) => .ok (purePathCell "PurePosixPath" b r) | .raises cls => .raises cls)
-        (fun _ => .raises "TypeError")
+        (fun x => if x.null then .ok x else .raises "TypeError")
 def stringToUrl (c : Column) : R Column :=
   applyStr c (fun f => match f.url with | .ok (n, s, r) => .ok (urlCell n s r) | .raises cls => .raises cls)
     -- `_urlparse_or_missing`: a missing value is kept as it is
     (fun x => if x.null then .ok x else .raises "AttributeError")
 def stringToUuid (c : Column) : R Column :=
   applyStr c (fun f => match f.uuid with | .ok r => .ok (uuidCell r) | .raises cls => .raises cls)
-    (fun _ => .raises "AttributeError")
+    (fun x => if x.null then .ok x else .raises "AttributeError")
 def stringToEmail (c : Column) : R Column :=
   applyStr c (fun f => match f.email with | .ok r => .ok (emailCell r) | .raises cls => .raises cls)
-    (fun _ => .raises "TypeError")
+    (fun x => if x.null then .ok x else .raises "TypeError")
 
 /-! ### the relation table: guard and transformer per declared inference relation -/
 
